@@ -216,7 +216,11 @@ fn lists(_t: Tier) -> BoxedStrategy<Case> {
             if neg { -x } else { x }
         }),
     ];
-    (vec(val, 1..9), proptest::option::weighted(0.3, (any::<u16>(), -2i64..3, 0i64..3)))
+    // long runs of one-digit values with a few multi-digit ones in between (texts of 10..60 digits in
+    // which a value straddles every kind of block boundary)
+    let mostly_small = prop_oneof![10 => -15i64..16, 2 => -600i64..600, 1 => -70000i64..70000];
+    let list = prop_oneof![3 => vec(val, 1..9), 2 => vec(mostly_small, 8..48)];
+    (list, proptest::option::weighted(0.3, (any::<u16>(), -2i64..3, 0i64..3)))
         .prop_map(|(mut xs, twin)| {
             // neighbours that agree in their low 32 bits (or are equal / off by one)
             if let Some((at, m, d)) = twin {
@@ -399,7 +403,7 @@ fn subs() -> Vec<Sub> {
 pub const DEF: PropertyDef = PropertyDef {
     id: "C11",
     rule: "window: every integer of the window (distinct by construction; non-trivial = negative or >= 2 digits). \
-           lists: proptest lists of 1..8 values up to 62 bits (non-trivial = >= 2 values, one negative, one multi-digit). \
+           lists: proptest lists of 1..8 values up to 62 bits, or 8..47 mostly one-digit values (non-trivial = >= 2 values, one negative, one multi-digit). \
            all_strings: every base64-alphabet string up to length 3/4; long_strings: generated strings with continuation runs \
            biased to 11..14 digits (non-trivial = decodes with a run >= 2). alphabet: every char U+0000..U+07FF alone and \
            embedded, plus 3/4-byte samples (must be rejected unless in the alphabet). map_encoder_deltas: two-token maps whose generated column / original line / original column go from a to b for all pairs of 104 edge values (and random pairs), written by the map encoder and read back with the reference reader",
